@@ -554,6 +554,21 @@ fn c07(ctx: &Ctx, calls: &[CallRec], exchanges: &[Exchange], records: &[Record])
                 }
             }
         }
+        // decoding the URI on the server side returns the originals - it does not refuse them:
+        // nothing was done to this request, so an error naming a path / query argument means the
+        // server could not read back what the client wrote
+        if !damaging(&ex.req_fired) && ex.routed == Some(call.ep) {
+            if let ServerOut::Err(e) = &ex.server {
+                let named = e.safe_params.iter().find(|(k, _)| k == "param").map(|(_, v)| v.trim_matches('"').to_string());
+                if let Some(a) = meta.args.iter().find(|a| matches!(a.kind, PKind::Path | PKind::Query) && Some(&a.name) == named.as_ref()) {
+                    ctx.violation(
+                        "C07",
+                        format!("server_refused_what_the_client_wrote:{:?}", a.kind),
+                        format!("{}: parameter {} = {:?} in {} was refused: {} {:?}", who, a.name, arg_of(call, meta, &a.name).map(|v| v.val.render()), clip(uri), e.code, e.cause),
+                    );
+                }
+            }
+        }
         // server-side decoding returns the originals (single undamaged call)
         if calls.len() == 1 && !damaging(&ex.req_fired) {
             if let Some(r) = records.iter().find(|r| r.ep == call.ep) {
@@ -936,6 +951,10 @@ fn c06(ctx: &Ctx, calls: &[CallRec], exchanges: &[Exchange], records: &[Record],
                             Want::Reject("wrong_type")
                         } else if ex.req_fired.iter().any(|f| f.kind == FK::UnionMismatch) {
                             Want::Reject("union_tag_and_member_disagree")
+                        } else if ex.req_fired.iter().any(|f| f.kind == FK::MissingField) && !ex.req_fired.iter().any(|f| matches!(f.kind, FK::ByteFlip | FK::CtLabelSwap)) {
+                            Want::Reject("required_member_missing")
+                        } else if ex.req_fired.iter().any(|f| f.kind == FK::LeafCorrupt) && !ex.req_fired.iter().any(|f| matches!(f.kind, FK::Truncate | FK::ByteFlip | FK::CtLabelSwap)) {
+                            Want::Reject("leaf_not_of_its_type")
                         } else if ex.req_fired.iter().any(|f| f.kind == FK::NumberOutOfRange)
                             && !ex.req_fired.iter().any(|f| matches!(f.kind, FK::Truncate | FK::ByteFlip | FK::CtLabelSwap))
                         {
@@ -1066,6 +1085,10 @@ fn c18(ctx: &Ctx, calls: &[CallRec], exchanges: &[Exchange], records: &[Record],
                 }
             } else if ex.resp_fired.iter().any(|f| f.kind == FK::UnionMismatch) {
                 WantC::Err("union_tag_and_member_disagree")
+            } else if ex.resp_fired.iter().any(|f| f.kind == FK::MissingField) && !ex.resp_fired.iter().any(|f| f.kind == FK::ByteFlip) {
+                WantC::Err("required_member_missing")
+            } else if ex.resp_fired.iter().any(|f| f.kind == FK::LeafCorrupt) && !ex.resp_fired.iter().any(|f| matches!(f.kind, FK::Truncate | FK::ByteFlip)) {
+                WantC::Err("leaf_not_of_its_type")
             } else if ex.resp_fired.iter().any(|f| f.kind == FK::NumberOutOfRange) && !ex.resp_fired.iter().any(|f| matches!(f.kind, FK::Truncate | FK::ByteFlip)) {
                 WantC::Err("number_out_of_range")
             } else if all_transparent {
